@@ -22,13 +22,20 @@ import (
 func aliasedDoc(r *prng.R) interface{} {
 	shared := map[string]interface{}{"k": "x", "v": float64(r.Range(1, 5)), "b": []interface{}{3.0, 1.0, 2.0}}
 	sharedArr := []interface{}{map[string]interface{}{"k": "x", "v": 2.0}, map[string]interface{}{"k": "y", "v": 1.0}, shared}
+	// two arrays of the caller that overlap in memory: "nums" and "strs" are the
+	// first items of longer arrays the caller also holds ("numsAll", "strsAll"),
+	// so whatever extends "nums" in place writes into "numsAll"
+	numsAll := []interface{}{3.0, 3.0, 1.0, 2.0, 1.0, 4.0, 9.0, 8.0}
+	strsAll := []interface{}{"b", "b", "a", "c", "z"}
 	return map[string]interface{}{
+		"numsAll": numsAll,
+		"strsAll": strsAll,
 		"a":    shared,
 		"c":    map[string]interface{}{"a": shared, "b": sharedArr},
 		"arr":  sharedArr,
 		// duplicates followed by new values: an in-place $distinct would shift them
-		"nums": []interface{}{3.0, 3.0, 1.0, 2.0, 1.0, 4.0},
-		"strs": []interface{}{"b", "b", "a", "c"},
+		"nums": numsAll[:6],
+		"strs": strsAll[:4],
 		"nul":  nil,
 		"e":    map[string]interface{}{},
 		"holes": []interface{}{map[string]interface{}{}, map[string]interface{}{"k": "x"}, map[string]interface{}{}, []interface{}{}},
@@ -337,7 +344,8 @@ func (g *c07Gen) transformProgram() jast.Node {
 }
 
 func regValue() map[string]interface{} {
-	return map[string]interface{}{"list": []interface{}{2.0, 2.0, 3.0, 1.0}, "k": "x", "v": 7.0, "o": map[string]interface{}{"k": "x"},
+	listAll := []interface{}{2.0, 2.0, 3.0, 1.0, 6.0, 5.0}
+	return map[string]interface{}{"list": listAll[:4], "listAll": listAll, "k": "x", "v": 7.0, "o": map[string]interface{}{"k": "x"},
 		"m": []interface{}{[]interface{}{5.0, 4.0, 6.0}, []interface{}{2.0, 1.0}}}
 }
 
